@@ -33,6 +33,7 @@ func (ex *Exec) now() *Term {
 	c := ex.C.And(ex.C.Cmp(OpSLe, lo, t), ex.C.Cmp(OpSLe, t, ex.C.Const(64, uint64(timeEpoch+(int64(1)<<60)))))
 	ex.addPC(c)
 	ex.clock = t
+	ex.clockLog = append(ex.clockLog, t)
 	return t
 }
 
@@ -255,6 +256,14 @@ func registerRT(t map[string]intrinsic) {
 		return nil, nil
 	}
 	rt["vNote"] = noop
+	// every clock reading taken so far on this path, in order (time.Now, Since, Until, vNow)
+	rt["vClockCount"] = func(ex *Exec, caller *frame, fn *ssa.Function, args []Value) (Value, *goPanic) {
+		return ex.C.Const(64, uint64(len(ex.clockLog))), nil
+	}
+	rt["vClockAt"] = func(ex *Exec, caller *frame, fn *ssa.Function, args []Value) (Value, *goPanic) {
+		i := ex.concretize(args[0].(*Term), 0, len(ex.clockLog))
+		return ex.mkTime(ex.clockLog[i]), nil
+	}
 	rt["vLog"] = func(ex *Exec, caller *frame, fn *ssa.Function, args []Value) (Value, *goPanic) {
 		if os.Getenv("VERIF_LOG") != "" {
 			if EvalModel != nil {
